@@ -1472,16 +1472,6 @@ def rule_cuthill(w):
             problems.append("node %s is entered into the ordering but not marked as processed in the same block" % x)
         else:
             MASK = same[0].arr.key
-        # position = counter - 1 with the counter incremented just before
-        ix = strip(e.idx)
-        okpos = False
-        if ix.get("k") == "Bin" and ix.get("op") == "-" and strip(ix["lhs"]).get("k") == "Ref" and fk.size(ix["rhs"]) == Lin.const(1):
-            cd = strip(ix["lhs"])["d"]
-            incs = [s2 for s2 in fk.events if s2.kind == "scalar" and s2.var == cd and s2.op == "++" and frames_key(s2.frames) == frames_key(e.frames) and s2.seq < e.seq]
-            later = [s2 for s2 in fk.events if s2.kind == "scalar" and s2.var == cd and frames_key(s2.frames) == frames_key(e.frames) and incs and incs[-1].seq < s2.seq < e.seq]
-            okpos = len(incs) == 1 and not later
-        if not okpos:
-            problems.append("position %s is not `counter - 1` with the counter advanced once immediately before" % render(e.idx))
         if what == "neighbour":
             ifs = [f for f in e.frames if f.kind == "if" and f.branch == "then"]
             if not (MASK and any(f.canon.startswith("!%s[%s]" % (MASK, x)) for f in ifs)):
@@ -1490,7 +1480,7 @@ def rule_cuthill(w):
             if not (len(segs) == 1 and segs[0].loop.pair_ok and segs[0].loop.canon.startswith("seg(graph._domain_ptr,%s[" % PA) and x == "graph._image_idx[$%d]" % segs[0].loop.depth):
                 problems.append("the entered node is not an element of the adjacency list of an already ordered node")
         ck.ob("E7.cm-insert", "CuthillMcKee::compute/%s" % what, not problems, "; ".join(problems) if problems else
-              "%s %s: stored at counter-1 after ++counter, marked in the same block%s" % (what, x, ", only if unmarked" if what == "neighbour" else ""), fn.file, e.node.get("l"))
+              "%s %s: marked as processed in the block that stores it%s" % (what, x, ", stored only if unmarked and taken from the adjacency list of an ordered node" if what == "neighbour" else ""), fn.file, e.node.get("l"))
     # ---- root selection per RootType ---------------------------------------------------------------------
     roots = [e for e in ins if not [f for f in e.frames if f.kind == "if"]]
     rootvar = strip(roots[0].val)["d"] if roots and strip(roots[0].val).get("k") == "Ref" else None
@@ -1840,6 +1830,304 @@ def rule_serial(w):
 
 
 # -------------------------------------------------------------------------------------------------
+# Cuthill-McKee: slot bookkeeping across levels and components (zone analysis of the counters)
+# -------------------------------------------------------------------------------------------------
+
+def rule_cm_slots(w):
+    """every node is stored at slot = number of nodes stored so far"""
+    import czones
+    ck = w.ck
+    fns = one(w, r"CuthillMcKee::compute$", None, ["layers", "graph", "reverse", "r_type", "s_type"])
+    if not fns:
+        ck.incomplete("E7.cm-slot", "CuthillMcKee::compute(layers, graph, ...) not found")
+        return
+    fn = fns[0]
+    fk = w.fk(fn)
+    PA = "perm._perm_pos"
+    ins = [e for e in fk.events if e.kind == "sub" and e.mode == "write" and e.arr.key == PA and e.op == "=" and not (e.val_canon or "").startswith(PA + "[")
+           and not _is_perm_elem(fk, e.val, PA)]
+    if fk.unknown or len(ins) < 2:
+        ck.incomplete("E7.cm-slot", "CuthillMcKee::compute: insertions into the permutation array not recognised")
+        return
+    ids = {id(e.node): e for e in ins}
+    results = {}
+
+    def on_store(cp, n, st):
+        e = ids.get(id(strip(n["lhs"])))
+        if e is None:
+            return st
+        t = cp.term(e.idx)
+        if t is None or t[0] == czones.ZERO:
+            results[id(e.node)] = (e, None, None)
+        else:
+            results[id(e.node)] = (e, t, st.bounds(t[0], "placed"))
+            # continue under the assumption that the slot was right (no follow-up alarms)
+            s2 = st.add(t[0], "placed", -t[1])
+            s2 = s2.add("placed", t[0], t[1]) if s2 is not None else None
+            st = s2 if s2 is not None else st
+        return st.assign("placed", "placed", 1)
+    cp = czones.CounterProgram(fn, ghosts=["placed"], on_store=on_store)
+    cp.run()
+    # variables the slots depend on
+    rel = {t[0] for e, t, b in results.values() if t is not None}
+    for _ in range(6):
+        for x, y in cp.copies:
+            if x in rel and y != czones.ZERO:
+                rel.add(y)
+    opaque = [(cp.names.get(d), n.get("l")) for d, n in cp.havocs if d in rel and n.get("k") != "Var" or (d in rel and n.get("k") == "Var" and n.get("init") is not None)]
+    if cp.rounds_exceeded or cp.unmodelled or len(results) != len(ins):
+        ck.incomplete("E7.cm-slot", "CuthillMcKee::compute: counter skeleton not solvable (%s)" % ("iteration limit" if cp.rounds_exceeded else "unmodelled statements / stores not reached"))
+        return
+    for e, t, b in results.values():
+        what = "root" if not [f for f in e.frames if f.kind == "if"] else "neighbour"
+        key = "CuthillMcKee::compute/%s" % what
+        if t is None:
+            ck.incomplete("E7.cm-slot", "%s: slot expression %s is not counter +- constant" % (key, render(e.idx)))
+            continue
+        name = cp.names.get(t[0])
+        lo, hi = b
+        want = -t[1]
+        if lo is not None and hi is not None and lo == hi == want:
+            ck.ob("E7.cm-slot", key, True, "slot %s equals the number of nodes stored so far on every path (%s - #stored = %d is an invariant of the level counters)" % (
+                render(e.idx), name, want), fn.file, e.node.get("l"))
+        elif opaque:
+            ck.incomplete("E7.cm-slot", "%s: the counters %s are assigned values that are not counter +- constant" % (key, ", ".join("%s (line %s)" % o for o in opaque)))
+        else:
+            rng_ = "[%s, %s]" % ("-inf" if lo is None else lo + t[1], "+inf" if hi is None else hi + t[1])
+            ck.ob("E7.cm-slot", key, False, "slot %s is not tied to the number of nodes stored so far: over all paths (slot - #stored) ranges over %s instead of {0}; "
+                  "a path into this store leaves %s behind the store counter (e.g. an exit of the level loop that does not advance it), so an occupied slot is overwritten "
+                  "and a node is lost" % (render(e.idx), rng_, name), fn.file, e.node.get("l"))
+
+
+# -------------------------------------------------------------------------------------------------
+# iterator invariant of composite adjactors
+# -------------------------------------------------------------------------------------------------
+
+def rule_iter_invariant(w):
+    """after every modification of the inner iterator of a nested image iterator the function either tests it against its end
+    or moves on: 'dereferenceable or at end' on every return"""
+    ck = w.ck
+    obs = {}
+    classes = {}
+    for fn in w.fns:
+        if re.search(r"::ImageIterator$", fn.cls or "") and re.search(r"kernel/adjacency/adjactor\.hpp$", fn.file):
+            classes.setdefault(fn.cls, []).append(fn)
+    if not classes:
+        ck.incomplete("E7.iter-invariant", "no nested ImageIterator class of a composite adjactor instantiated")
+    for cls, fns in sorted(classes.items()):
+        # inner iterator fields: assigned from X->image_begin(*outer field)
+        inner = set()
+        for fn in fns:
+            for n in fn.nodes():
+                tgt, rhs = _assign_parts(n)
+                if tgt is not None and tgt.get("k") == "Member" and rhs is not None and rhs.get("k") == "MCall" and rhs.get("n") == "image_begin" and rhs.get("a"):
+                    d = _is_deref(rhs["a"][0])
+                    if d is not None and d.get("k") == "Member":
+                        inner.add(tgt["n"])
+        for fn in fns:
+            cfg = fn.cfg
+            if cfg is None:
+                continue
+            for b in cfg.blocks.values():
+                for pos, eid in enumerate(b["el"]):
+                    n = fn.by_id(eid)
+                    kind, fld = _modifies(n, inner)
+                    if kind is None or kind == "reset":
+                        continue          # a reset (value-initialised iterator) is the end state itself
+                    verdict = _escapes(fn, cfg, b, pos, fld, inner)
+                    key = "%s::%s(%s)/%s after %s" % (re.sub(r"<.*>::", "::", strip_ns(cls)), fn.name, ",".join(p["n"] for p in fn.params), fld, kind)
+                    if verdict is None:
+                        ck.incomplete("E7.iter-invariant", "%s: control flow after the modification not analysable" % key)
+                        continue
+                    d = ("after `%s` the function can return without testing %s against its end and without moving on: for an empty inner list the iterator is neither "
+                         "dereferenceable nor equal to the end iterator (operator* then reads past the list)" % (render(n)[:70], fld)) if verdict else \
+                        "after `%s` every path to a return tests %s against its end (or re-positions it)" % (render(n)[:70], fld)
+                    obs.setdefault(key, []).append((not verdict, d, fn.file, n.get("l")))
+    for key, lst in sorted(obs.items()):
+        bad = [x for x in lst if not x[0]]
+        pick = bad[0] if bad else lst[0]
+        ck.ob("E7.iter-invariant", key, not bad, pick[1], pick[2], pick[3])
+
+
+def strip_ns(s):
+    return (s or "").replace("FEAT::Adjacency::", "")
+
+
+def _assign_parts(n):
+    if n.get("k") == "Assign" and n.get("op") == "=":
+        return strip(n["lhs"]), strip(n["rhs"])
+    if n.get("k") == "OpCall" and n.get("op") == "=" and len(n.get("a", [])) == 2:
+        return strip(n["a"][0]), strip(n["a"][1])
+    return None, None
+
+
+def _modifies(n, inner):
+    if n is None:
+        return None, None
+    tgt, rhs = _assign_parts(n)
+    if tgt is not None and tgt.get("k") == "Member" and tgt["n"] in inner:
+        if rhs is not None and rhs.get("k") == "MCall" and rhs.get("n") == "image_begin":
+            return "load", tgt["n"]
+        return "reset", tgt["n"]
+    inc = _is_incdec(n)
+    if inc is not None and inc[0].get("k") == "Member" and inc[0]["n"] in inner and n.get("k") in ("Un", "OpCall"):
+        return "increment", inc[0]["n"]
+    return None, None
+
+
+def _deref_test(fn, cond_id, fld):
+    """+1: the condition is `fld != end` (true edge = dereferenceable), -1: `fld == end`, 0: something else"""
+    c = strip(fn.by_id(cond_id)) if cond_id is not None else None
+    if c is None:
+        return 0
+    sign = 1
+    while c is not None and ((c.get("k") == "Un" and c.get("op") == "!") or (c.get("k") == "OpCall" and c.get("op") == "!" and len(c.get("a", [])) == 1)):
+        c = strip(c["e"] if c.get("k") == "Un" else c["a"][0])
+        sign = -sign
+    if c is None:
+        return 0
+    op = None
+    if c.get("k") == "Bin" and c.get("op") in ("!=", "=="):
+        op, l, r = c["op"], strip(c["lhs"]), strip(c["rhs"])
+    elif c.get("k") == "OpCall" and c.get("op") in ("!=", "==") and len(c.get("a", [])) == 2:
+        op, l, r = c["op"], strip(c["a"][0]), strip(c["a"][1])
+    if op is None:
+        return 0
+
+    def base(x):
+        inc = _is_incdec(x)
+        if inc is not None:
+            x = inc[0]
+        return x
+    l, r = base(l), base(r)
+    names = {x.get("n") for x in (l, r) if x is not None and x.get("k") == "Member"}
+    if fld in names and len(names) == 2:
+        return sign * (1 if op == "!=" else -1)
+    return 0
+
+
+def _escapes(fn, cfg, b, pos, fld, inner):
+    """True iff the function exit is reachable from the modification without passing a dereferenceability test (on its 'yes' edge)
+    or a re-positioning of the same field"""
+    for eid in b["el"][pos + 1:]:
+        k, f = _modifies(fn.by_id(eid), inner)
+        if k in ("load", "reset") and f == fld:
+            return False
+
+    def succs(blk):
+        ss = [s for s in blk.get("succ", []) if s is not None]
+        t = _deref_test(fn, blk.get("cond"), fld)
+        if t != 0 and len(blk.get("succ", [])) == 2:
+            keep = blk["succ"][1] if t == 1 else blk["succ"][0]
+            return [keep] if keep is not None else []
+        return ss
+    seen = set()
+    st = succs(b)
+    while st:
+        x = st.pop()
+        if x in seen:
+            continue
+        seen.add(x)
+        if x == cfg.exit:
+            return True
+        blk = cfg.blocks[x]
+        if any(_modifies(fn.by_id(eid), inner)[1] == fld for eid in blk["el"]):
+            continue
+        st.extend(succs(blk))
+    return False
+
+
+# -------------------------------------------------------------------------------------------------
+# preconditions of member functions called by the render constructors
+# -------------------------------------------------------------------------------------------------
+
+def rule_callee_precond(w):
+    """XASSERTs on the length of member arrays at the entry of a member function called by a render constructor must be
+    implied by what the render function has just built"""
+    ck = w.ck
+    ctors = [fn for fn in w.fns if fn.name == "Graph" and re.search(G, fn.cls or "") and fn.param("render_type") and fn.tk == "inst"]
+    obs = {}
+    for ctor in ctors:
+        fk = w.fk(ctor)
+        arms = {}
+        for e in fk.events:
+            cases = [f for f in e.frames if f.kind == "case"]
+            if cases and e.kind == "call" and e.obj == "this" and not (e.callee or "").startswith("std::"):
+                arms.setdefault(id(cases[-1].node), []).append(e)
+        for calls in arms.values():
+            rcalls = [e for e in calls if e.name.startswith("_render")]
+            others = [e for e in calls if not e.name.startswith("_render")]
+            if len(rcalls) != 1:
+                continue
+            rfn = w.findex.lookup(rcalls[0].node)
+            if rfn is None:
+                continue
+            rk = w.fk(rfn)
+            for oc in others:
+                if oc.seq < rcalls[0].seq:
+                    continue
+                cfn = w.findex.lookup(oc.node)
+                if cfn is None:
+                    ck.incomplete("E7.callee-precond", "%s: callee %s not in the fact base" % (short(ctor), oc.name))
+                    continue
+                ckk = w.fk(cfn)
+                first_loop = min([e.seq for e in ckk.events if e.frames] or [10 ** 9])
+                for a in [e for e in ckk.events if e.kind == "assert" and not e.frames and e.seq < first_loop]:
+                    key = "%s/XASSERT(%s)" % (short_noinst(cfn), a.canon)
+                    arrkey, need = _length_requirement(ckk, a.cond)
+                    if arrkey is None:
+                        ck.incomplete("E7.callee-precond", "%s: entry assertion not a length requirement on a member array" % key)
+                        continue
+                    # what the render function leaves in that array
+                    node, fields, arrs = rk.returns[-1]
+                    ent = arrs.get(arrkey)
+                    alloc = [e for e in rk.events if e.kind == "alloc" and e.arr.key == arrkey]
+                    if ent is None or not alloc:
+                        ck.incomplete("E7.callee-precond", "%s: %s does not allocate %s" % (key, rfn.name, arrkey))
+                        continue
+                    ext = ent[0]
+                    if ext is not None:
+                        e2 = rk.norm(ext)
+                        ok = e2.c >= need and all(v >= 0 for v in e2.t.values())
+                        d = "%s builds %s with %r entries: %s" % (rfn.name, arrkey, e2, "never fewer than %d" % need if ok else "can be fewer than %d (every size symbol may be 0)" % need)
+                    else:
+                        arr = alloc[-1].arr
+                        xe = strip(getattr(arr, "extent_expr", None))
+                        counted = xe is not None and xe.get("k") == "Ref" and xe.get("dk") == "local" and rk.mut.get(xe.get("d"))
+                        if not counted:
+                            ck.incomplete("E7.callee-precond", "%s: extent %s of %s is neither a size expression nor a counter" % (key, getattr(arr, "extent_canon", "?"), arrkey))
+                            continue
+                        ok = False
+                        d = ("%s allocates %s with the number of counted adjacencies (%s), which is 0 for a relation without any adjacency (the render functions handle that case), "
+                             "but %s requires at least %d: every render type that calls it aborts on such input" % (rfn.name, arrkey, getattr(arr, "extent_canon", "?"), cfn.name, need))
+                    obs.setdefault(key, []).append((ok, d + " [called after %s in %s]" % (rfn.name, short(ctor)), cfn.file, a.node.get("l")))
+    for key, lst in sorted(obs.items()):
+        bad = [x for x in lst if not x[0]]
+        pick = bad[0] if bad else lst[0]
+        ck.ob("E7.callee-precond", key, not bad, pick[1], pick[2], pick[3])
+
+
+def _length_requirement(fk, cond):
+    """(member array key, minimal length) for `!A.empty()`, `A.size() > c`, `A.size() >= c`, `A.size() != 0`"""
+    c = strip(cond)
+    if c is None:
+        return None, None
+    if c.get("k") == "Un" and c.get("op") == "!":
+        e = strip(c["e"])
+        if e.get("k") == "MCall" and e.get("n") == "empty" and not e.get("a"):
+            return fk.okey(e.get("obj")), 1
+        return None, None
+    if c.get("k") == "Bin" and c.get("op") in (">", ">=", "!="):
+        l, r = strip(c["lhs"]), strip(c["rhs"])
+        cv = fk.size(r)
+        if l.get("k") == "MCall" and l.get("n") == "size" and not l.get("a") and cv is not None and cv.is_const():
+            need = cv.c + 1 if c["op"] == ">" else (cv.c if c["op"] == ">=" else (1 if cv.c == 0 else None))
+            if need is not None:
+                return fk.okey(l.get("obj")), need
+    return None, None
+
+
+# -------------------------------------------------------------------------------------------------
 
 def run(tier):
     ck = Check("C19", tier)
@@ -1874,12 +2162,20 @@ def run(tier):
             "concat: perm_pos[i] = p.perm_pos[perm_pos[i]] then calc_swap_from_perm; calc_perm_from_swap: identity then forward swaps (inverse must undo forward for every permutation)", 4)
     ck.rule("E7.greedy-colour", "greedy colouring: per node the mask is cleared, filled from the adjacency list of exactly the node that receives the colour, a used colour is chosen only "
             "if unmarked, else a new colour is opened (structural form of 'first colour not used by a neighbour')", 6)
-    ck.rule("E7.cm-insert", "Cuthill-McKee: every node entered into the ordering is stored at counter-1 right after ++counter and marked processed in the same block; "
-            "neighbours only if unmarked and taken from the adjacency list of an ordered node (a node entered twice / unmarked makes the ordering non-injective)", 2)
+    ck.rule("E7.cm-insert", "Cuthill-McKee: every node entered into the ordering is marked processed in the same block; "
+            "neighbours only if unmarked and taken from the adjacency list of an ordered node (a node entered twice / unmarked makes the ordering non-injective); "
+            "the slot is decided by E7.cm-slot", 2)
     ck.rule("E7.cm-root-guard", "every RootType takes its root candidates from a loop over all nodes under the not-yet-processed test", 3)
     ck.rule("E13.root-total", "every RootType finds a root whenever an unprocessed node is left: the extra selection condition holds for the first candidate "
             "(otherwise 'No root node found' aborts for graphs with isolated nodes / duplicated adjacencies)", 3)
     ck.rule("E7.cm-finalise", "the returned permutation's swap array is recomputed after the ordering is complete", 1)
+    ck.rule("E7.cm-slot", "Cuthill-McKee stores every node at slot = number of nodes stored so far: `slot counter - #stored` is an invariant of the level counters "
+            "(zone analysis of lvl1/lvl2/lvl3 over all paths incl. every exit of the level loop; breaks for graphs with several components, where a stale counter makes "
+            "the next root overwrite an occupied slot)", 2)
+    ck.rule("E7.iter-invariant", "CompositeAdjactor::ImageIterator: after every load / increment of the inner iterator each path to a return tests it against its end "
+            "or re-positions it - 'dereferenceable or at end' (breaks for empty inner adjacency lists)", 3)
+    ck.rule("E7.callee-precond", "length assertions at the entry of a member function called by a render constructor (sort_indices) are implied by what the render function "
+            "just built; a length that is the number of counted adjacencies has no lower bound (relation without adjacencies)", 1)
     ck.rule("E12.serial-layout", "Graph(buffer) reads what Graph::serialize wrote: header slots and payload sections agree symbolically (sizes, order, advance)", 7)
     ck.rule("E2.sort-segment", "sort_indices sorts exactly the adjacency list [P[i],P[i+1]) of every domain node (sorting keeps each adjacency set)", 1)
     w = World(ck, tier)
@@ -1891,7 +2187,10 @@ def run(tier):
     rule_permutation(w)
     rule_coloring(w)
     rule_cuthill(w)
+    rule_cm_slots(w)
     rule_serial(w)
+    rule_iter_invariant(w)
+    rule_callee_precond(w)
     ck.assume("adjactor interface contract (adjactor.hpp): image_begin/image_end(n) take n < get_num_nodes_domain(), iteration yields indices < get_num_nodes_image(); "
               "Graph: |_domain_ptr| = num_nodes_domain+1 (when not empty), offsets monotone with _domain_ptr[num_nodes_domain] = |_image_idx|, image indices < num_nodes_image")
     ck.assume("Permutation arrays hold values < size(); the input array v of Permutation(num_entries, type, v) and the `order` array of Coloring(graph, order) have one entry per "
